@@ -154,6 +154,7 @@ type Line struct {
 	Obs    json.RawMessage `json:"obs,omitempty"`
 	Start  bool            `json:"start,omitempty"` // marker: case idx is about to run
 	Extra  json.RawMessage `json:"extra,omitempty"` // free-form payload (traces, exports)
+	Event  json.RawMessage `json:"event,omitempty"` // progress record of the case in flight (does not finish it)
 }
 
 // ChildOut is used by child modes to report.
@@ -225,6 +226,10 @@ func RunBatch[T any](mode string, cases []T, perChild time.Duration, env []strin
 			}
 			if l.Start {
 				inflight = l.Idx
+				continue
+			}
+			if l.Event != nil {
+				onLine(l)
 				continue
 			}
 			done[l.Idx] = true
